@@ -81,7 +81,7 @@ def _effective(chosen_name, kind, C):
     return C.INVALID_PROPERTY_BEHAVIORS[C.PropertyType[kind]].name
 
 
-def ob_policy(pattern, which, fixed_first, budget_s=300):
+def ob_policy(pattern, which, fixed_first, fixed_tmpl=None, budget_s=300):
     """the call returns an SM simfile obeying the policy, or raises InvalidPropertyException naming the first offending
     property (NotImplementedError for warps); nothing else; source and templates unmodified"""
     import z3
@@ -131,7 +131,7 @@ def ob_policy(pattern, which, fixed_first, budget_s=300):
                     ch[k] = _eqstr(symx, k, blank.get(k) or "", c)
             ch["NOTES"] = "000%d" % n
             src.charts.append(ch)
-        tmpl = symx.choose("tmpl", 3)  # no templates / templates with own properties and a chart / an EMPTY simfile template
+        tmpl = symx.choose("tmpl", 3) if fixed_tmpl is None else fixed_tmpl  # no templates / templates with own properties and a chart / an EMPTY simfile template
         st, ct = None, None
         if tmpl == 1:
             st = SM.SMSimfile(string=""); st["TITLE"] = "template title"; st["GENRE"] = "g!"
@@ -290,7 +290,8 @@ def obligations(tier):
     obs = []
     b = 400 if tier == "quick" else 3000
     for first in range(5):
-        obs.append(dict(name=f"policy[all present, SSC_VERSION behaviour={BEH[first]}]", func="ob_policy", args=("all", 0, first), budget_s=b,
+      for tm in range(3):
+        obs.append(dict(name=f"policy[all present, SSC_VERSION behaviour={BEH[first]}, templates={tm}]", func="ob_policy", args=("all", 0, first, tm), budget_s=b,
                         bounds="every SSC-only simfile/chart property present with symbolic default-ness; behaviours of the other four kinds chosen lazily over 4 values + unspecified; WARPS 3 classes; 0..2 charts; templates on/off"))
     obs.append(dict(name="policy[none present]", func="ob_policy", args=("none", 0, None), budget_s=b, bounds="no SSC-only property besides VERSION/WARPS"))
     for w in (range(nsim + ncht) if tier != "quick" else list(range(0, nsim + ncht, 3))):
@@ -339,7 +340,8 @@ def replay(data):
         return bad, f"sm={dict(sm)} back={dict(back)}"
     # policy: rebuild concretely from the model
     m = data["model"] or {}
-    pattern, which, fixed_first = data["args"]
+    pattern, which, fixed_first = data["args"][:3]
+    fixed_tmpl = data["args"][3] if len(data["args"]) > 3 else None
     gi = lambda k, d=0: int(Fraction(m.get(k, str(d))))
     gb = lambda k: str(m.get(k, "False")) in ("True", "1")
     sim_tab = {k.name: list(v) for k, v in C.INVALID_PROPERTIES[SMSimfile].items()}
@@ -379,10 +381,11 @@ def replay(data):
         if BEH[i] is not None:
             beh[C.PropertyType[kind]] = C.InvalidPropertyBehavior[BEH[i]]
     st = ct = None
-    if gi("tmpl") == 1:
+    tm = gi("tmpl") if fixed_tmpl is None else fixed_tmpl
+    if tm == 1:
         st = SMSimfile(string=""); st["TITLE"] = "template title"; st["GENRE"] = "g!"; st.charts.append(SMChart.blank())
         ct = SMChart.from_msd(["tt", "td", "tf", "tm", "tr", "tn"])
-    elif gi("tmpl") == 2:
+    elif tm == 2:
         st = SMSimfile(string="")
     eff = lambda kind: (beh.get(C.PropertyType[kind]) or C.INVALID_PROPERTY_BEHAVIORS[C.PropertyType[kind]]).name
 
